@@ -229,6 +229,13 @@ class Env:
             if isinstance(t, dict) and t.get('k') == 'call' and t.get('short') == 'operator=' and 'recv' in t \
                     and len(t.get('args', [])) == 1:
                 self._store(strip_casts(t['recv']), self.subst(strip_casts(t['args'][0])))
+            # swap(x, y) / adl_swap(x, y) of two lvalues: the values are exchanged
+            elif isinstance(t, dict) and t.get('k') == 'call' and t.get('short') in ('swap', 'adl_swap') and 'recv' not in t \
+                    and len(t.get('args', [])) == 2 and all(strip_casts(a).get('k') in ('member', 'local', 'param') for a in t['args']):
+                a, b = strip_casts(t['args'][0]), strip_casts(t['args'][1])
+                va, vb = self.subst(a), self.subst(b)
+                self._store(a, vb)
+                self._store(b, va)
         elif e['ev'] == 'incdec':
             lhs = e['lhs']
             rhs = {'k': 'bin', 'op': '+' if e['op'] == '++' else '-', 'l': self.subst(lhs), 'r': {'k': 'lit', 'v': 1},
